@@ -409,7 +409,12 @@ def check_profile(p):
     return sorted(set(bad))[:6]
 
 
-def evaluate(R, data, io_fault=None, entry='path', clock=False):
+#: the path string itself is part of what is offered (spaces, non-ASCII, no extension, relative, format characters)
+SIM_PATHS = [SIM_PATH, '/simfs/my ballots (final).blt', '/simfs/wähler-№1.BLT', 'ballots', './rel/ballots.blt',
+             '/simfs/100%s{0}.blt', '/simfs/' + 'x' * 200 + '.blt']
+
+
+def evaluate(R, data, io_fault=None, entry='path', clock=False, path=None):
     """read `data` (bytes on the simulated disk) through droop and judge the outcome.
 
     returns dict(outcome, key..., viol=[...]); outcome in accepted / profile-error / foreign / hang
@@ -419,7 +424,7 @@ def evaluate(R, data, io_fault=None, entry='path', clock=False):
     fs = simfs.SimFS()
     open_fault = io_fault if io_fault in ('ENOENT', 'EACCES', 'EISDIR', 'EMFILE') else None
     read_fault = io_fault if io_fault in ('EIO-before', 'EIO-after') else None
-    fs.put(SIM_PATH, data, open_fault=open_fault, read_fault=read_fault)
+    fs.put(path or SIM_PATH, data, open_fault=open_fault, read_fault=read_fault)
     text = None
     if entry == 'data':
         try:
@@ -427,7 +432,7 @@ def evaluate(R, data, io_fault=None, entry='path', clock=False):
         except UnicodeDecodeError:
             entry = 'path'
     res['entry'] = entry
-    sim_path = '' if io_fault == 'PATH-EMPTY' else SIM_PATH     # ElectionProfile(path='') names no file at all
+    sim_path = '' if io_fault == 'PATH-EMPTY' else (path or SIM_PATH)   # ElectionProfile(path='') names no file at all
     p = None
     exc = None
     budget = parser_budget(len(data))
@@ -464,7 +469,7 @@ def evaluate(R, data, io_fault=None, entry='path', clock=False):
                                             len(data), WALL_LIMIT, res.get('steps', 0))))
             return res
         # consult the deterministic step budget
-        r2 = evaluate(R, data, io_fault, entry, clock=True)
+        r2 = evaluate(R, data, io_fault, entry, clock=True, path=path)
         if r2['outcome'] != 'hang':
             r2['slow'] = True
         return r2
@@ -581,11 +586,11 @@ def new_acc():
                 samples=[])
 
 
-def _viol_entry(v, base_name, base, faults, aux, io, entry, data):
+def _viol_entry(v, base_name, base, faults, aux, io, entry, data, path=None):
     d = dict(v)
     d.update(base_name=base_name, base_b64=base64.b64encode(base).decode('ascii'), faults=faults,
              aux_b64=base64.b64encode(aux).decode('ascii') if aux else None, io_fault=io, entry=entry,
-             nbytes=len(data))
+             nbytes=len(data), sim_path=path)
     return d
 
 
@@ -652,7 +657,11 @@ def _work_sequences(R, seed, bases, first, count, realfs, scratch, acc, nb):
         if acc['probes'].get('hangs', 0) >= 3:
             acc['probes']['skipped_after_hangs'] = acc['probes'].get('skipped_after_hangs', 0) + 1
             continue
-        res = evaluate(R, data, io, entry, clock=(rnd.random() < 0.03))
+        clock = rnd.random() < 0.03
+        path = rnd.choice(SIM_PATHS) if rnd.random() < 0.1 else None
+        res = evaluate(R, data, io, entry, clock=clock, path=path)
+        if path:
+            acc['probes']['odd_path_string'] = acc['probes'].get('odd_path_string', 0) + 1
         if res['outcome'] == 'hang':
             acc['probes']['hangs'] = acc['probes'].get('hangs', 0) + 1
         kinds = [f[0] for f in faults]
@@ -662,7 +671,7 @@ def _work_sequences(R, seed, bases, first, count, realfs, scratch, acc, nb):
         for v in res['viol']:
             if len(acc['viol']) < 40:
                 acc['viol'].append(_viol_entry(v, base_name, base, faults, aux if used_aux else None, io,
-                                               res['entry'], data))
+                                               res['entry'], data, path))
         if i == first and not acc['samples']:
             acc['samples'].append(dict(run=i, base=base_name, faults=faults, io_fault=io, entry=res['entry'],
                                        outcome=res['outcome'], message=res.get('msg'), bytes_after=len(data)))
@@ -739,6 +748,56 @@ def scale_inputs(base, per_base=10):
     return out
 
 
+def bulk_bases(seed):
+    """[(name, bytes)]: large files with realistic structure -- tens of thousands of DISTINCT ballot lines, thousands of
+    candidates -- which replaying one token never produces"""
+    out = []
+    rnd = rng(seed, 'disk-bulk', 0)
+    n = 40
+    lines = ["%d 5" % n, "[tie " + " ".join(str(c) for c in rnd.sample(range(1, n + 1), n)) + " ]", "-7 -19"]
+    for _ in range(20000):
+        k = rnd.randint(1, 12)
+        lines.append("%d %s 0" % (rnd.randint(1, 99), " ".join(str(c) for c in rnd.sample(range(1, n + 1), k))))
+    lines.append("0")
+    lines += ['"Candidate %d"' % i for i in range(1, n + 1)]
+    lines.append('"twenty thousand distinct ballots"')
+    out.append(('bulk/ballots', ("\n".join(lines) + "\n").encode()))
+    n = 3000
+    lines = ["%d 3" % n]
+    for _ in range(4000):
+        k = rnd.randint(1, 6)
+        lines.append("1 %s 0" % " ".join(str(c) for c in rnd.sample(range(1, n + 1), k)))
+    lines.append("0")
+    lines += ['"Name %d"' % i for i in range(1, n + 1)]
+    lines.append('"three thousand candidates"')
+    out.append(('bulk/candidates', ("\n".join(lines) + "\n").encode()))
+    return out
+
+
+def work_bulk(R, seed, j):
+    "bulk arm: a large realistic file, unfaulted and under a handful of single faults"
+    signal.signal(signal.SIGALRM, _alarm)
+    acc = new_acc()
+    name, base = bulk_bases(seed)[j]
+    rnd = rng(seed, 'disk-bulk-faults', j)
+    n = len(base)
+    cases = [[]]
+    for _ in range(6):
+        cases.append([rnd.choice((['truncate', rnd.randint(0, n)], ['drop', rnd.randrange(n), rnd.randint(1, 40)],
+                                  ['bitflip', rnd.randrange(n), rnd.randrange(8)],
+                                  ['dup', rnd.randrange(n), rnd.randint(1, 2000)],
+                                  ['zero', rnd.randrange(n), rnd.randint(1, 4096)]))])
+    for faults in cases:
+        data = simfs.apply_faults(base, faults)
+        res = evaluate(R, data, None, 'path')
+        _account(acc, [f[0] for f in faults] + ['bulk'], None, res, True, len(data))
+        acc['probes']['bulk_reads'] = acc['probes'].get('bulk_reads', 0) + 1
+        acc['cpu_max'] = max(acc.get('cpu_max', 0.0), res.get('cpu', 0.0))
+        for v in res['viol']:
+            acc['viol'].append(_viol_entry(v, name, base, faults, None, None, 'path', data))
+    return acc
+
+
 def work_scale(R, seed, base_name, base):
     """scale arm: a stuck write replays one token or one line until the file is large; reading must stay (near) linear.
 
@@ -786,7 +845,7 @@ def replay_object(R, seed, v, reduced=None):
     "replay file content"
     return dict(property='C16', verif_seed=seed, engine='disk', base_name=v['base_name'], base_b64=v['base_b64'],
                 faults=v['faults'], aux_b64=v.get('aux_b64'), io_fault=v.get('io_fault'), entry=v.get('entry', 'path'),
-                reduced_b64=reduced,
+                sim_path=v.get('sim_path'), reduced_b64=reduced,
                 violation={k: v.get(k) for k in ('cls', 'exc', 'frame', 'line_text', 'msg')}, tree=R.tree)
 
 
@@ -801,12 +860,12 @@ def run_replay(R, obj):
     "re-execute a replay file: violations of the recorded (base + faults) form and of the reduced form"
     signal.signal(signal.SIGALRM, _alarm)
     data = stored_bytes(obj)
-    res = evaluate(R, data, obj.get('io_fault'), obj.get('entry', 'path'))
+    res = evaluate(R, data, obj.get('io_fault'), obj.get('entry', 'path'), path=obj.get('sim_path'))
     out = list(res['viol'])
     red = None
     if obj.get('reduced_b64') is not None:
         rd = base64.b64decode(obj['reduced_b64'])
-        r2 = evaluate(R, rd, obj.get('io_fault'), obj.get('entry', 'path'))
+        r2 = evaluate(R, rd, obj.get('io_fault'), obj.get('entry', 'path'), path=obj.get('sim_path'))
         red = [vclass(v) for v in r2['viol']]
     return out, res['outcome'], red
 
@@ -823,7 +882,7 @@ def minimise(R, seed, v):
     entry = v.get('entry', 'path')
 
     def shows(data, io_):
-        res = evaluate(R, data, io_, entry)
+        res = evaluate(R, data, io_, entry, path=v.get('sim_path'))
         return any(vclass(x) == target for x in res['viol'])
 
     faults = list(v['faults'])
